@@ -130,6 +130,21 @@ func (t *GoType) HasDirectMethod(name string) bool {
 }
 
 func (t *GoType) GetConverter() (TypeConverter, error) {
+	goTypeMutex.RLock()
+	conv := t.converter
+	goTypeMutex.RUnlock()
+	if conv != nil {
+		return conv, nil
+	}
+	goTypeMutex.Lock()
+	defer goTypeMutex.Unlock()
+	return t.getConverter()
+}
+
+// getConverter is GetConverter for callers that already hold goTypeMutex. It
+// fills the type's converter cache and, through getTypeConverter, the shared
+// converter registry.
+func (t *GoType) getConverter() (TypeConverter, error) {
 	if t.converter != nil {
 		return t.converter, nil
 	}
